@@ -344,7 +344,16 @@ def gen_bool_seq(rng, n, regs=REG_BOOL):
             else:
                 sets.append(shape(rng)[0])
         items = []
-        for _ in range(rng.range(2, 9)):
+        pile = rng.chance(1, 4)
+        if pile:            # ONE polygon piled up many times (mostly as subject): the output rings are split and re-joined repeatedly
+            base = rng.choice([[(20, -20), (30, -20), (20, -10)], _sq(0, 0, rng.range(2, 9)), polys.rand_polygon(rng, rng.range(3, 6), 12),
+                               [(0, 0), (10, 0), (20, 0), (20, 20), (0, 20), (0, 0)]])
+            for _ in range(rng.range(4, 10)):
+                items.append((rng.choice([0, 0, 0, 0, 0, 2, 1, 4, 6]), [base]))
+            if rng.chance(1, 3):
+                other = [p for ps in sets for p in ps]
+                items.append((rng.choice([0, 2]), [rng.choice(other)] if other else [base]))
+        for _ in range(0 if pile else rng.range(2, 9)):
             ps = rng.choice(sets)
             if rng.chance(1, 3) and len(ps) > 1:
                 ps = [rng.choice(ps)]
@@ -352,7 +361,7 @@ def gen_bool_seq(rng, n, regs=REG_BOOL):
             if rng.chance(1, 5):
                 kind += 4
             items.append((kind, ps))
-        twice = rng.chance(1, 12)
+        twice = rng.chance(1, 100)
         if twice:
             pos = rng.below(len(items))
             items.insert(pos, (4 + rng.choice([0, 1, 2]), rng.choice(sets)))
@@ -366,7 +375,7 @@ def gen_bool_seq(rng, n, regs=REG_BOOL):
             dx = rng.choice([0, 0, M - m * kk, -(M - m * kk)]) if M > 4 * m * kk else 0
             dy = rng.choice([0, 0, M - m * kk, -(M - m * kk)]) if M > 4 * m * kk else 0
             items = [(k, [[(max(-M, min(M, x * kk + dx)), max(-M, min(M, y * kk + dy))) for x, y in p] for p in ps]) for k, ps in items]
-        ct = rng.choice([4, 4, 4, 1, 2, 3])
+        ct = rng.choice([4, 4, 4, 1, 2, 3]) if not pile else rng.choice([4, 2, 4, 2, 1, 3])
         fr = rng.choice([0, 0, 0, 1, 2, 3])
         mode = rng.choice([1, 3, 1, 3, 5, 7, 0, 2])
         le = maxabs([p for _, ps in items for p in ps]) <= P29
@@ -698,6 +707,8 @@ FIXED = [
      '0 1 3 50 0 120 60 40 110 1 1 3 -10 50 60 55 130 40 1 1 2 30 -20 35 130 1 1 6 0 0 30 0 60 0 60 60 0 60 0 0 0 1 6 0 0 30 0 60 0 60 60 0 60 0 0 '
      '0 1 4 60 0 120 0 120 60 60 60 0 1 4 30 60 90 60 90 100 30 100 1 1 6 0 0 30 0 60 0 60 60 0 60 0 0 1 1 4 30 60 90 60 90 100 30 100 '
      '0 1 6 0 0 30 0 60 0 60 60 0 60 0 0 0 1 4 60 0 120 0 120 60 60 60 0 1 4 30 60 90 60 90 100 30 100', 'small', True, 'seq-checksplitowner'),
+    ('BSEQ 2 0 1 0 1 2 2 1 3 20 -20 30 -20 20 -10 0 6 3 20 -20 30 -20 20 -10 3 20 -20 30 -20 20 -10 3 20 -20 30 -20 20 -10 3 20 -20 30 -20 20 -10 '
+     '3 20 -20 30 -20 20 -10 3 20 -20 30 -20 20 -10', 'small', True, 'seq-checksplitowner'),
     # the same ReuseableDataContainer64 added twice to one Clipper64 (reported through C12)
     ('BSEQ 2 2 1 0 0 3 4 2 4 10 10 90 20 80 90 20 70 3 50 0 120 60 40 110 5 3 3 -10 50 60 55 130 40 2 30 -20 35 130 4 0 100 50 20 100 100 150 20 8 0',
      'small', True, 'seq-twice'),
